@@ -6,6 +6,12 @@ NOTE = ("Trusted base: CPython 3.12 + NumPy 2.5.3 as installed in /venv, the ref
         "(pure Python/NumPy, no geometry_tools import), and the finite alphabets/bounds listed in the evidence file. "
         "The verdict covers exactly the enumerated space.")
 CHECKS = {
+ "C05": dict(engine="E+P", design="5/C05",
+   technique="explicit-state BFS over generator-table histories (assign / re-assign / assign-inverse-first, mixed dtypes and multi-character names) with ALL words up to length L evaluated in every state against an exact product oracle; functorial oracle for every derived representation; Fox calculus by its defining recursion",
+   text="All assignment histories to depth 2 (thorough 3) over a 6-matrix alphabet per dimension 1..3 (thorough 5); in every state all 341 (thorough 5461) words: rep[w] = oracle product (hence every split), empty word, inverses, free reduction, elements(); every derived representation (copy, conjugate, dual, compose with each lie.hom wrapper, tensor products, symmetric square, adjoints, subgroups, astype, projective/hyperbolic wrapping) equals the oracle functor of the oracle image; Fox fundamental formula for all words; cocycle @ coboundary = 0 for eight relation families."),
+ "C17": dict(engine="P", design="5/C17",
+   technique="complete product-grid enumeration deciding polynomial identities (degree <= d per variable vanishing on a (d+1)-point grid per variable => identically zero), exact in float64; exhaustive finite exact alphabets for the non-polynomial maps",
+   text="sl2_irrep(.,n) homomorphism on the full grid {0..n-1}^8 for n=2..4 (thorough 6: 2.1M points), sl2_to_so21 on {0,1,2}^8 and its form law on {0..4}^4, slc_to_slr / block_include on their degree-1/2 grids: these DECIDE the identities for all real and complex matrices. Adjoint representations on all integer matrices with entries in [-2,2], det +-1, and elementary alphabets (homomorphism, Killing form); sl2c_to_so31 / Hermitian action on all 72 Gaussian det-1 matrices; every batch shape vs per-matrix calls; o_to_pgl recovery and homomorphism up to sign on all det +-1 integer matrices, also for four non-default bilinear forms."),
  "C09": dict(engine="E+P", design="5/C09",
    technique="explicit-state BFS over operation histories of the real FSA object vs a set model (state de-duplication incl. list-aliasing pattern); exhaustive enumeration of kbmag tables",
    text="All operation histories up to the stated depth over a 3-vertex/2-label (thorough: also 3-label and 4-vertex) universe, from every construction route, are executed on real FSA objects; in every reached state the three views are compared with a set model. All kbmag tables with <=2 (thorough 3) states x spacing/interval styles are parsed and compared. Bounded-exhaustive: no history within the bound is skipped."),
